@@ -7,7 +7,7 @@ import cp_common as cp
 import pC08
 
 ID = "C10"
-COQ_IMPORTS = ["From HTA.lib Require Import Dag.", "From HTA.model Require Import C08_Model."]
+COQ_IMPORTS = ["From HTA.lib Require Import Dag.", "From HTA.model Require Import C08_Model C08_Host."]
 SOURCES = cp.SOURCES
 N_CASES = {"quick": 250, "thorough": 4000}
 RULE = ("the successful analyses of generated causally consistent traces and windows (as C08): get_critical_path_breakdown() is paired row by row with the critical "
@@ -32,6 +32,10 @@ def run_impl(case, d):
     res, ta, g = cp.run_cp(case, d, zero_weight_env=case["params"]["zw"])
     if g is None or "graph" not in res or not res.get("success"):
         return res
+    try:
+        res["traversal"] = cp.dump_host_traversal(ta, res["rank"])
+    except Exception as e:
+        res["traversal_error"] = type(e).__name__ + ": " + str(e)[:200]
     try:
         edges = list(g.critical_path_edges_set)
         df = g.get_critical_path_breakdown()
@@ -63,7 +67,7 @@ def coq_term(case, impl):
     rows = "[" + "; ".join(
         f"mkBR {fw.z(p['u'])} {fw.z(p['v'])} {fw.z(p['row']['duration'])} {TY[p['row']['type']]} "
         f"{fw.z(-1 if p['row']['event_idx'] is None else p['row']['event_idx'])} {BOUND.get(p['row']['bound_by'], -9)}" for p in impl["paired"]) + "]"
-    return f"check_C10 {pC08.clipped_lit(impl)} {nodes} {cpe} {rows} {fw.z(impl['path_weight'])}"
+    return f"(check_C10 {pC08.clipped_lit(impl)} {nodes} {cpe} {rows} {fw.z(impl['path_weight'])}, {pC08.host_term(impl)})"
 
 
 def compare(case, impl, model):
@@ -85,6 +89,10 @@ def compare(case, impl, model):
             disc.append(f"breakdown row {r} does not describe critical edge {p['u']}->{p['v']} (weight {p['w']}, type {p['ty']})")
         if (-1 if r["event_idx"] is None else r["event_idx"]) != p["attr"]:
             disc.append(f"breakdown row attributes edge {p['u']}->{p['v']} to {r['event_idx']}, get_event_attribution_for_edge says {p['attr']}")
+    host = []
+    if len(model) == 2 and isinstance(model[0], list):
+        model, host = model[0], model[1]
+        disc += pC08.compare_host(impl, host, w)
     for ok, what in zip(model, CHECKS):
         if not ok:
             bad = [(p["u"], p["v"], p["ty"], p["row"]["event_idx"], p["row"]["bound_by"]) for p in impl["paired"]][:6]
@@ -114,6 +122,9 @@ def classify(case, impl, model, disc):
 LEVEL_TEXT = ("Proof (verified checker): C10_check_sound: a breakdown accepted by check_C10 has exactly one row per critical edge, its durations add up to the path's "
               "weight, every span edge is attributed to an existing event of the same thread or stream whose span covers the edge's time range, every "
               "kernel-to-kernel edge to the kernel before the gap, and every row's bound_by class is the one the attributed event prescribes. The checker is evaluated "
-              "in Coq on every breakdown; summary() is checked to be the per-class share adding up to 100.")
-LEVEL_NOTE = ("Translation-validation style (the attribution code itself is not modelled); inherits C08's restriction to traces without event-record synchronisation.")
+              "in Coq on every breakdown; summary() is checked to be the per-class share adding up to 100. Host side additionally by proof about the attribution code "
+              "itself: C10_host_attribution_covers: the enter / exit state machine with _attribute_edge's four cases (coq/model/C08_Host.v), over ANY depth-first "
+              "traversal of properly nested events with or without graph nodes, attributes every operator-span edge to an existing event whose span covers it; "
+              "the model's attributions are compared with the real graph's on every case.")
+LEVEL_NOTE = ("Translation-validation style for the breakdown table and the device side; the host-side attribution is modelled and proved; inherits C08's restriction to traces without event-record synchronisation.")
 TECHNIQUE = "Coq-verified checker (reflection of the attribution and bound-by rules) evaluated by vm_compute on every real breakdown"
